@@ -54,6 +54,8 @@ def count(ctx, trace):
                     op, 'in its own time' if e['first'] < 0 else 'first' if e['first'] == bad else 'after the healthy member'))
             if op in ('GetTag', 'ResolveTag'):
                 bump('tag read: conflict reported' if 'conflicting' in msg else 'tag read: ok' if e['ok'] else 'tag read: absent')
+            elif op in ('ListTags', 'ListRepos', 'Referrers') and e['ok'] and len(e['items']) >= 5:
+                bump('listing ok with 5 or more merged entries (%s)' % op)
             elif op in ('ListTags', 'ListRepos', 'Referrers'):
                 bump('listing ok' if e['ok'] else 'listing: error after %d item(s)' % len(e['items']) if 'injected' in msg else 'listing: unknown to both')
             elif msg.startswith('r0 failed') or msg.startswith('r1 failed') or msg.startswith('one push'):
@@ -123,10 +125,15 @@ def run(ctx):
         t = os.path.join(td, 'unify%d.ndjson' % i)
         run_unify(ctx, vh, t, n=per, seed=ctx.seed * 1000 + i)
         traces.append(t)
+    # listings that diverge in both directions over a universe of 8 repositories / 8 tags / 8 referrers of one subject
+    for i in range(1 if quick else 6):
+        t = os.path.join(td, 'listing%d.ndjson' % i)
+        run_unify(ctx, vh, t, n=6 if quick else 30, seed=ctx.seed * 1000 + 500 + i, cat='list')
+        traces.append(t)
     for t in traces:
         count(ctx, t)
     sit = ctx.cov['situations']
-    for need in ('PushBlob with a member failing by itself, answering after the healthy member', 'PushBlob with a member failing by itself, answering first', 'tag read: conflict reported', 'write refused because one member failed', 'listing: unknown to both', 'resume ok'):
+    for need in ('listing ok with 5 or more merged entries (ListTags)', 'listing ok with 5 or more merged entries (ListRepos)', 'listing ok with 5 or more merged entries (Referrers)', 'PushBlob with a member failing by itself, answering after the healthy member', 'PushBlob with a member failing by itself, answering first', 'tag read: conflict reported', 'write refused because one member failed', 'listing: unknown to both', 'resume ok'):
         if not sit.get(need):
             raise vlib.Machinery('the batch never reached the situation %r' % need)
     ctx.cov['samples'] = [dict(recorded_events=samples(traces[0]))]
@@ -137,7 +144,7 @@ def run(ctx):
                         'digest<->content mapping and manifest rendering by the harness; TLC and the Json/IOUtils community modules']
     return vlib.finish(ctx, rule='each scenario writes the two members directly (item by item to both / one / the other; the same tag to the same or '
                        'different manifests; one member left empty), then reads and lists everything through the unifier, then writes through it '
-                       '(pushes, deletes, mounts, chunked uploads closed and resumed at right/wrong offsets; replicated writes during which one member - either, answering before or after the healthy one - fails by itself), under both read policies; every call is '
+                       '(pushes, deletes, mounts, chunked uploads closed and resumed at right/wrong offsets; a separate family over 8 repositories / 8 tags / 8 referrers of one subject in which each listing kind has at least two entries private to each member, interleaved in sort order, members in both orders; replicated writes during which one member - either, answering before or after the healthy one - fails by itself), under both read policies; every call is '
                        'one trace event, followed by the projected state of member 0 and of member 1; TLC accepts iff each event is the step OciUnify '
                        'prescribes (same result as the combination of the two reference models\' answers; both snapshots equal the model members) and '
                        'UnionView, TagConflictNeverSilent, WriteBoth, ReadsChangeNothing, PoliciesAgree, EqualStaysEqual hold on that step')
